@@ -258,6 +258,10 @@ def eliminable (m : TagMap) (name : Name) (rs : List Name) : Bool :=
   let refs := fun n => if n = name then rs else refsOf m n
   (elim refs (tkeys m) ((tkeys m).length + 1) []).isSome
 
+/-- the tag's query is "too complex" for a converter (`attachConverterToTag`) -/
+def Tag.complex (t : Tag) : Bool :=
+  t.mainFeat &&& featData != 0 || t.subFeat &&& featData != 0 || !t.mainTags.isEmpty || !t.subTags.isEmpty
+
 def updQuery (st : State) (name definition : String) (p : Facts) : Outcome × State :=
   if defRejected name p (markPrefix name) then (.err, st) else
   match tget st.tags name with
@@ -266,6 +270,8 @@ def updQuery (st : State) (name definition : String) (p : Facts) : Outcome × St
     -- validation (the same as AddTag, plus the cycle check)
     if p.refs.any (fun r => !thas st.tags r) then (.err, st) else
     if !eliminable st.tags name p.refs then (.err, st) else
+    -- a tag with converters attached keeps a query converters can be attached to
+    if !t.converters.isEmpty && (mkTag t.color definition p).complex then (.err, st) else
     let nt := { mkTag t.color definition p with
                 converters := t.converters, referencedBy := t.referencedBy, uncertain := st.allStreams }
     let onlyBefore := t.refs.filter (fun r => !p.refs.contains r)
@@ -296,10 +302,6 @@ def updName (st : State) (name newName : String) : Outcome × State :=
     let m := t.refs.foldl (fun m r => tmod m r fun rt =>
       { rt with referencedBy := addRef newName (delRef name rt.referencedBy) }) m
     (.ok, { st with tags := m })
-
-/-- the tag's query is "too complex" for a converter (`attachConverterToTag`) -/
-def Tag.complex (t : Tag) : Bool :=
-  t.mainFeat &&& featData != 0 || t.subFeat &&& featData != 0 || !t.mainTags.isEmpty || !t.subTags.isEmpty
 
 def updConverters (st : State) (name : Name) (names : List Name) : Outcome × State :=
   match tget st.tags name with
